@@ -53,6 +53,7 @@ type PeerConnection struct {
 	signalingState           SignalingState
 	iceConnectionState       atomic.Value // ICEConnectionState
 	connectionState          atomic.Value // PeerConnectionState
+	connectionStateMu        sync.Mutex   // serializes updateConnectionState
 
 	idpLoginURL *string
 
@@ -837,6 +838,12 @@ func (pc *PeerConnection) updateConnectionState(
 	iceConnectionState ICEConnectionState,
 	dtlsTransportState DTLSTransportState,
 ) {
+	// The state is computed, compared and stored as one step: concurrent updates
+	// (ICE and DTLS callbacks, Close) must not notify twice for one change or
+	// overwrite a newer state (e.g. closed) with a stale one.
+	pc.connectionStateMu.Lock()
+	defer pc.connectionStateMu.Unlock()
+
 	connectionState := PeerConnectionStateNew
 	switch {
 	// The RTCPeerConnection object's [[IsClosed]] slot is true.
